@@ -156,6 +156,16 @@ impl<C: Ws> Coder<C> {
             }
         }
     }
+    /// `Clone::clone_from` when both sides have the same backend type, else a plain clone
+    fn clone_from_(&mut self, source: &Self) {
+        match (&mut *self, source) {
+            (Coder::V(a), Coder::V(b)) => a.clone_from(b),
+            (Coder::Sm(a), Coder::Sm(b)) => a.clone_from(b),
+            (Coder::Cur(a), Coder::Cur(b)) => a.clone_from(b),
+            (Coder::St(a), Coder::St(b)) => a.clone_from(b),
+            _ => *self = source.clone_(),
+        }
+    }
     fn state(&self) -> u128 {
         on_coder!(self, c => s_to(c.state()))
     }
@@ -219,6 +229,26 @@ impl<C: Ws> Coder<C> {
                 c.into_compressed().ok().map(|b| b.data.iter().map(|&w| w_to(w)).collect())
             }
         }
+    }
+    /// `clone().into_binary()`: None = not available for this backend in the harness;
+    /// Some(None) = refused (payload is not whole words) or no room; Some(Some(words)) = payload
+    fn binary(&self) -> Option<Option<Vec<u64>>> {
+        Some(match self {
+            Coder::V(c) => c.clone().into_binary().ok().map(|v| v.iter().map(|&w| w_to(w)).collect()),
+            Coder::Sm(c) => c.clone().into_binary().ok().map(|v| v.iter().map(|&w| w_to(w)).collect()),
+            Coder::Cur(c) => c.clone().into_binary().ok().map(|b| {
+                let (buf, pos) = b.into_buf_and_pos();
+                buf[..pos].iter().map(|&w| w_to(w)).collect()
+            }),
+            Coder::Rev(_) => match self.clone_() {
+                Coder::Rev(c) => c.into_binary().ok().map(|b| {
+                    let (buf, pos) = b.0.into_buf_and_pos();
+                    buf[pos..].iter().rev().map(|&w| w_to(w)).collect()
+                }),
+                _ => unreachable!(),
+            },
+            Coder::St(_) => return None,
+        })
     }
     fn from_words(kind: &Backend, words: &[u64]) -> Option<Self> {
         let ws: Vec<C::W> = words.iter().map(|&w| w_from(w)).collect();
@@ -339,6 +369,8 @@ struct World<'t, C: Ws> {
     garbled: bool,
     /// true once `clear()` was called
     cleared: bool,
+    /// an older copy of the coder, kept as the target of a later `clone_from`
+    stale: Option<Coder<C>>,
 }
 
 macro_rules! viol {
@@ -409,6 +441,7 @@ fn exec_cfg<C: Ws>(t: &AnsTrace, ctx: &mut Ctx, skip_inspect: bool) -> Result<Ru
         skip_inspect,
         garbled: false,
         cleared: false,
+        stale: None,
     };
     w.after_op(ctx)?;
     if let Init::Binary(ws) = &t.init {
@@ -748,9 +781,24 @@ impl<'t, C: Ws> World<'t, C> {
             AnsOp::DecBatch { form, ms, fail_at } => self.dec_batch(*form, ms, *fail_at, ctx)?,
             AnsOp::Reload { binary } => self.reload(*binary, ctx)?,
             AnsOp::CloneSwap => {
-                let c = self.coder.clone_();
+                // two ways to obtain a copy: `clone()`, or `clone_from()` into a coder that
+                // holds something else (an older copy of this coder, or a small unrelated one);
+                // which way is a function of the coder's state
+                let via_clone_from = (self.coder.bulk_len().wrapping_add(self.coder.state() as usize)) & 1 == 1;
+                let c = if via_clone_from {
+                    let mut target = match self.stale.take() {
+                        Some(t) => t,
+                        None => Coder::<C>::from_binary(&self.t.backend, &[0x5a, 0xa5, 0x3c]).unwrap_or_else(|| self.coder.clone_()),
+                    };
+                    ctx.stats.hit("op-clone-from");
+                    target.clone_from_(&self.coder);
+                    target
+                } else {
+                    self.coder.clone_()
+                };
                 let old = std::mem::replace(&mut self.coder, c);
-                drop(old);
+                // the replaced coder becomes the (stale) target of a later `clone_from`
+                self.stale = Some(old);
                 ctx.stats.hit("op-clone-swap");
             }
             AnsOp::Inspect { view, n } => {
@@ -908,9 +956,16 @@ impl<'t, C: Ws> World<'t, C> {
     fn enc_batch(&mut self, form: EncForm, items: &[(i64, usize)], fail_at: Option<usize>, ctx: &mut Ctx) -> Result<(), Violation> {
         // validity: all models exist, can encode, same (pb,p); iid: same model
         let mut resolved: Vec<(i64, &Built)> = Vec::new();
-        for (s, m) in items {
+        // at most one impossible symbol: the batch must stop there with ImpossibleSymbol,
+        // having encoded exactly the symbols in front of it
+        let mut bad_idx: Option<usize> = None;
+        for (i, (s, m)) in items.iter().enumerate() {
             match self.model(*m) {
                 Some(b) if b.can_encode() && b.lcp64(*s).is_some() => resolved.push((*s, b)),
+                Some(b) if b.can_encode() && !b.in_support(*s) && bad_idx.is_none() && !matches!(form, EncForm::Try | EncForm::TryRev | EncForm::Loop) => {
+                    bad_idx = Some(i);
+                    resolved.push((*s, b));
+                }
                 _ => {
                     ctx.stats.hit("skipped-op");
                     return Ok(());
@@ -939,8 +994,11 @@ impl<'t, C: Ws> World<'t, C> {
             // try_encode_symbols_reverse walks the reversed iterator; we handed it the items
             // reversed, so it sees logical order and stops at the Err in front of index k
             (EncForm::TryRev, Some(k)) => k,
-            _ => items.len(),
+            _ => bad_idx.unwrap_or(items.len()),
         };
+        if bad_idx.is_some() {
+            ctx.stats.hit("fault-badsym-in-batch");
+        }
         let sig0 = self.export_sig();
         let wb = self.coder.bulk_len();
         let res = self.coder.enc_batch(form, &resolved, fail_at);
@@ -952,9 +1010,10 @@ impl<'t, C: Ws> World<'t, C> {
                 break;
             }
         }
-        let expected_res = match fail_at {
-            Some(k) => EncRes::IterErr(k as i64),
-            None => EncRes::Ok,
+        let expected_res = match (fail_at, bad_idx) {
+            (Some(k), _) => EncRes::IterErr(k as i64),
+            (None, Some(_)) => EncRes::Frontend("ImpossibleSymbol".into()),
+            (None, None) => EncRes::Ok,
         };
         if matches!(res, EncRes::Backend(_)) || !twin_ok {
             // write fault inside a batch: how many symbols made it is whatever the loop did;
@@ -965,12 +1024,12 @@ impl<'t, C: Ws> World<'t, C> {
             self.info_bits = None;
             return Ok(());
         }
-        if ctx.on("C01") {
+        if ctx.on("C01") || (bad_idx.is_some() && ctx.any(&["C09", "C04"])) {
             if res != expected_res {
-                viol!(ctx, "C01", "batch-result-differs", "form {:?} fail_at {:?}: got {:?} expected {:?}", form, fail_at, res, expected_res);
+                viol!(ctx, ctx.prop, "batch-result-differs", "form {:?} fail_at {:?}: got {:?} expected {:?}", form, fail_at, res, expected_res);
             }
             if self.coder.state() != twin.state() || self.coder.bulk_words() != twin.bulk_words() {
-                viol!(ctx, "C01", "batch-form-differs-from-loop", "form {:?} n={} fail_at {:?}: state {:#x} vs loop {:#x}", form, items.len(), fail_at, self.coder.state(), twin.state());
+                viol!(ctx, ctx.prop, "batch-form-differs-from-loop", "form {:?} n={} fail_at {:?}: state {:#x} vs loop {:#x}", form, items.len(), fail_at, self.coder.state(), twin.state());
             }
         }
         if fail_at.is_some() {
@@ -1025,13 +1084,13 @@ impl<'t, C: Ws> World<'t, C> {
                 return Ok(());
             }
         }
-        if form == DecForm::Iid && !ms.iter().all(|m| *m == ms[0]) {
+        if matches!(form, DecForm::Iid | DecForm::IidNth) && !ms.iter().all(|m| *m == ms[0]) {
             ctx.stats.hit("skipped-op");
             return Ok(());
         }
         let fail_at = if form == DecForm::Try { fail_at.filter(|k| *k <= ms.len()) } else { None };
         let mut twin = self.coder.clone_();
-        let res = self.coder.dec_batch(form, &resolved, fail_at);
+        let mut res = self.coder.dec_batch(form, &resolved, fail_at);
         ctx.stats.hit(&format!("op-dec-batch-{:?}", form));
         // expected: the per-symbol loop; the fallible-iterator form yields an Err item at
         // fail_at *and keeps going* (documented: "we don't terminate when we encounter an error")
@@ -1047,6 +1106,12 @@ impl<'t, C: Ws> World<'t, C> {
         }
         if fail_at.is_some() {
             ctx.stats.hit("fault-itererr-fired");
+        }
+        // the last symbol of an `IidNth` batch was consumed inside the iterator adaptor: its
+        // value is not observable (the coder state afterwards is, and is compared below)
+        if form == DecForm::IidNth && res.last() == Some(&DecRes::Frontend(crate::dynops::NTH_MARKER.into())) && res.len() == expected.len() {
+            let n = res.len();
+            res[n - 1] = expected[n - 1].clone();
         }
         if ctx.on("C01") {
             if res != expected {
@@ -1079,12 +1144,10 @@ impl<'t, C: Ws> World<'t, C> {
         }
         if binary {
             // raw-binary round trip, only meaningful when the payload is whole words
-            let bin = match &self.coder {
-                Coder::V(c) => c.clone().into_binary().ok().map(|v| v.iter().map(|&w| w_to(w)).collect::<Vec<u64>>()),
-                _ => None,
-            };
+            let bin_avail = self.coder.binary();
+            let bin = bin_avail.clone().flatten();
             let expect = if self.r_valid { Some(self.r.binary()) } else { None };
-            if let (Some(expect), true) = (expect, matches!(self.coder, Coder::V(_))) {
+            if let (Some(expect), true) = (expect, bin_avail.is_some()) {
                 if ctx.on("C04") && bin != expect {
                     viol!(ctx, ctx.prop, "into-binary-differs-from-reference", "into_binary={:x?} reference={:x?}", bin, expect);
                 }
@@ -1348,14 +1411,32 @@ impl<'t, C: Ws> World<'t, C> {
     fn seek_beyond(&mut self, via: SeekVia, extra: usize, ctx: &mut Ctx) -> Result<(), Violation> {
         let len = self.coder.bulk_len();
         let pos = len + 1 + extra;
-        let state: C::S = s_from(self.coder.state());
+        // the state that comes with the bogus position is some other state (a snapshot of a
+        // longer stream): a refused seek must not install it
+        let state: C::S = s_from(self.coder.state() ^ 0x5a5a_5a5a);
         ctx.stats.hit("fault-seek-beyond");
+        let want: Vec<(usize, i64)> = self.stack.iter().rev().take(3).map(|e| (e.m, e.sym)).collect();
         macro_rules! run {
             ($d:expr, $what:expr) => {{
                 let mut d = $d;
+                let before = d.pos();
                 let r = d.seek((pos, state));
                 if ctx.on("C07") && r.is_ok() {
                     viol!(ctx, "C07", "ans-seek-beyond-data-accepted", "{}: pos {} with {} words", $what, pos, len);
+                }
+                if r.is_err() {
+                    if ctx.on("C07") && d.pos() != before {
+                        viol!(ctx, "C07", "ans-refused-seek-changed-the-decoder", "{}: pos() {:?} -> {:?} after a refused seek to {}", $what, before, d.pos(), pos);
+                    }
+                    // ... and decoding simply goes on where it was
+                    for (mi, sym) in &want {
+                        let Some(model) = self.model(*mi) else { break };
+                        if !model.can_decode() { break; }
+                        let got = <C::W as WordOps>::dec(&mut d, model);
+                        if ctx.on("C07") && got != DecRes::Ok(*sym) {
+                            viol!(ctx, "C07", "ans-wrong-symbol-after-refused-seek", "{}: got {:?} expected {}", $what, got, sym);
+                        }
+                    }
                 }
             }};
         }
@@ -1409,9 +1490,10 @@ impl<'t, C: Ws> World<'t, C> {
                         if gb.as_ref() != Some(&orig) {
                             viol!(ctx, "C04", "get-binary-does-not-restore-data", "orig={:x?} get_binary={:x?}", orig, gb);
                         }
-                        let ib = c.clone().into_binary().ok().map(|v| v.iter().map(|&w| w_to(w)).collect::<Vec<u64>>());
+                    }
+                    if let Some(ib) = self.coder.binary() {
                         if ib.as_ref() != Some(&orig) {
-                            viol!(ctx, "C04", "into-binary-does-not-restore-data", "orig={:x?} into_binary={:x?}", orig, ib);
+                            viol!(ctx, "C04", "into-binary-does-not-restore-data", "orig={:x?} into_binary={:x?} (backend {:?})", orig, ib, self.t.backend);
                         }
                     }
                 }
@@ -1522,7 +1604,7 @@ impl GenParams {
         match prop {
             "C04" => {
                 g.init_binary = 100;
-                g.backends = vec![Backend::Vec];
+                g.backends = vec![Backend::Vec, Backend::Vec, Backend::Small, Backend::Cursor { cap: 4096 }, Backend::RevCursor { cap: 4096 }];
             }
             "C07" => {
                 g.w_snapshot = 25;
@@ -1682,7 +1764,9 @@ pub fn generate(seed: u64, prop: &str, thorough: bool) -> AnsTrace {
         let ops = crate::for_cfg!(cfg, |C| greedy_c12_ops::<C>(&mut rng, &built, n));
         return AnsTrace { cfg, backend, init, models, ops, expect: None, expect_decoded: None, reprs: Vec::new() };
     }
-    if prop == "C04" {
+    // (one C04 run in four is a free-form history on the raw-binary data instead: batch
+    // forms, rejected symbols inside batches, reloads, views)
+    if prop == "C04" && !bias.chance(1, 4) {
         // bits-back shape: decode k, (reload / inspect sprinkled in), encode back in reverse
         let k = rng.len(6, 60);
         let ms: Vec<usize> = (0..k).map(|_| rng.usize(n_models)).collect();
@@ -1760,7 +1844,18 @@ pub fn generate(seed: u64, prop: &str, thorough: bool) -> AnsTrace {
                 })
                 .collect();
             let fail_at = if matches!(form, EncForm::Try | EncForm::TryRev) && frng.chance(2, 3) { Some(frng.usize(k + 1)) } else { None };
-            let n_ok = fail_at.unwrap_or(k).min(k);
+            let mut items = items;
+            let mut n_ok = fail_at.unwrap_or(k).min(k);
+            // an impossible symbol in the middle of a batch (not for the fallible-iterator
+            // forms, which have their own fault): the batch stops there
+            if matches!(prop, "C09" | "C01" | "C04") && fail_at.is_none() && k > 0 && !matches!(form, EncForm::Try | EncForm::TryRev | EncForm::Loop) && frng.chance(1, 5) {
+                let i = frng.usize(k);
+                let bad = out_of_support_symbol(&mut frng, &built[items[i].1]);
+                if !built[items[i].1].in_support(bad) {
+                    items[i].0 = bad;
+                    n_ok = i;
+                }
+            }
             for it in items.iter().take(n_ok) {
                 shadow.push(*it);
             }
@@ -1769,12 +1864,12 @@ pub fn generate(seed: u64, prop: &str, thorough: bool) -> AnsTrace {
             if shadow.is_empty() {
                 continue;
             }
-            let form = *rng.pick(&[DecForm::Symbols, DecForm::Try, DecForm::Iid, DecForm::Loop]);
+            let form = *rng.pick(&[DecForm::Symbols, DecForm::Try, DecForm::Iid, DecForm::Loop, DecForm::IidNth]);
             // pop a run of entries with identical (pb,p) (and identical model for iid)
             let (_, m0) = *shadow.last().unwrap();
             let mut ms = Vec::new();
             while let Some(&(_, m)) = shadow.last() {
-                let ok = if form == DecForm::Iid { m == m0 } else { built[m].pb == built[m0].pb && built[m].p == built[m0].p };
+                let ok = if matches!(form, DecForm::Iid | DecForm::IidNth) { m == m0 } else { built[m].pb == built[m0].pb && built[m].p == built[m0].p };
                 if !ok || ms.len() >= 12 || (ms.len() >= 1 && rng.chance(1, 4)) {
                     break;
                 }
